@@ -114,6 +114,7 @@ type GhostDecl struct {
 }
 
 type StructInv struct {
+	Lock  string // "" = object invariant; else: holds whenever mutex field Lock of the object is free
 	Type  string // qualified type name
 	Pkg   string
 	Props []string
@@ -212,6 +213,9 @@ func parseParams(s string) ([]ParamSpec, error) {
 // qualify turns a RelString-style function name written relative to pkg into
 // the fully qualified form go/ssa prints with RelString(nil).
 func qualifyFuncName(name, pkg string) string {
+	if strings.HasPrefix(name, "=") { // "=<fully qualified name>": taken verbatim (other packages)
+		return name[1:]
+	}
 	if pkg == "" {
 		return name
 	}
@@ -595,6 +599,14 @@ func (cs *Contracts) parseFile(path, pkg string) error {
 				return err
 			}
 			fs := strings.SplitN(rest, " ", 3)
+			lockName := ""
+			if len(fs) == 3 && fs[1] == "lockinv" {
+				g := strings.SplitN(fs[2], " ", 2)
+				if len(g) != 2 {
+					return fmt.Errorf("%s:%d: expected 'struct T lockinv <mutex> e'", path, lineNo)
+				}
+				lockName, fs[1], fs[2] = g[0], "invariant", g[1]
+			}
 			if len(fs) != 3 || fs[1] != "invariant" {
 				return fmt.Errorf("%s:%d: expected 'struct T invariant e'", path, lineNo)
 			}
@@ -602,7 +614,7 @@ func (cs *Contracts) parseFile(path, pkg string) error {
 			if pkg != "" && !strings.Contains(tn, ".") {
 				tn = pkg + "." + tn
 			}
-			curInv = &StructInv{Type: tn, Pkg: pkg, Props: append([]string(nil), props...)}
+			curInv = &StructInv{Type: tn, Pkg: pkg, Lock: lockName, Props: append([]string(nil), props...)}
 			cur = nil
 			pend = &pending{kind: "structinv", src: fs[2], line: lineNo, label: true}
 		case "spec":
